@@ -10,24 +10,35 @@ import (
 	"github.com/aml-org/amf-custom-validator/pkg/events"
 )
 
-// Steering concurrent calls through the public event channel only: the listener of every call holds the call's first event
-// of type `stage` until all the calls have reached it (or `wait` has passed: a call that fails before the stage never
-// arrives); the calls are then released one after another in `order`, each running to completion (or for `wait`) before
-// the next is released.  So every call has executed everything up to `stage` before any call executes what follows it -
-// the interleaving in which state shared between calls, written before `stage` and read after it, is seen by the wrong call.
-// Returns, per call, the report or "error: ..." / "panic: ...".
-func parkedThenSerial(stage events.EventType, wait time.Duration, order []int, calls []func(ch *chan events.Event) (string, error)) []string {
+// Steering concurrent calls through the public event channel only.  A call is blocked only while it SENDS an event (the
+// channel is unbuffered), so a listener cannot stop a call "at" an event it has already received: the code that follows that
+// event is running by then.  What a listener can do is stop RECEIVING: `after` names the last event the listener takes before
+// it stops (beforeFirst = it takes none), so the call runs up to its next send and stays inside it - e.g. after =
+// ProfileParsingDone parks a call inside the send of RegoGenerationStart, i.e. before any code of Rego generation has run.
+// A call that ends (fails) before that point counts as arrived.
+const beforeFirst events.EventType = -1
+
+// parkedThenSerial: every call is parked as described; the calls are then released one after another in `order`, each running
+// to completion (or for `wait`) before the next is released.  So every call has executed everything up to the parking point
+// before any call executes what follows it - the interleaving in which state shared between calls, written before that point
+// and read after it, is seen by the wrong call.  Returns, per call, the report or "error: ..." / "panic: ...".
+func parkedThenSerial(after events.EventType, wait time.Duration, order []int, calls []func(ch *chan events.Event) (string, error)) []string {
 	start := make([]int, len(calls))
 	for i := range start {
 		start[i] = i
 	}
-	return startedThenSerial(stage, wait, start, order, calls)
+	return startedThenSerial(after, wait, start, order, calls)
 }
 
 // startedThenSerial: as parkedThenSerial, and the calls are STARTED one after the other in the order `start`, each only when
-// the one before it is parked at the stage (or has ended): the order in which the calls pass the code before the stage is
-// fixed as well as the order in which they pass the code after it.
-func startedThenSerial(stage events.EventType, wait time.Duration, start []int, order []int, calls []func(ch *chan events.Event) (string, error)) []string {
+// the one before it is parked (or has ended): the order in which the calls pass the code before the stage is
+// fixed as well as the order in which they pass the code after it.  order == nil: released all at once (startedThenTogether).
+func startedThenSerial(after events.EventType, wait time.Duration, start []int, order []int, calls []func(ch *chan events.Event) (string, error)) []string {
+	return startedThenReleased(after, wait, start, order, 0, calls)
+}
+
+// startedThenReleased: the general form; order == nil releases all calls, `gap` apart (0 = at once).
+func startedThenReleased(after events.EventType, wait time.Duration, start []int, order []int, gap time.Duration, calls []func(ch *chan events.Event) (string, error)) []string {
 	n := len(calls)
 	outs := make([]string, n)
 	var mu sync.Mutex
@@ -50,13 +61,21 @@ func startedThenSerial(stage events.EventType, wait time.Duration, start []int, 
 			fin := make(chan struct{})
 			go func() {
 				defer close(fin)
-				for ev := range ch {
-					if ev.EventType == stage && atomic.CompareAndSwapInt32(&flags[i], 0, 1) {
+				hold := func() {
+					if atomic.CompareAndSwapInt32(&flags[i], 0, 1) {
 						arrived <- i
 						select {
 						case <-release[i]:
 						case <-time.After(4 * wait):
 						}
+					}
+				}
+				if after == beforeFirst {
+					hold()
+				}
+				for ev := range ch {
+					if ev.EventType == after {
+						hold() // nothing is received until the release: the call stays inside its next send
 					}
 				}
 			}()
@@ -88,6 +107,17 @@ func startedThenSerial(stage events.EventType, wait time.Duration, start []int, 
 		case <-deadline:
 		}
 	}
+	if order == nil {
+		// all together: every call has passed the code before the parking point, one after the other; now they all run on
+		for i := 0; i < n; i++ {
+			close(release[i])
+			if gap > 0 {
+				t0 := time.Now()
+				for time.Since(t0) < gap { // a busy wait: gaps are far below the timer resolution
+				}
+			}
+		}
+	}
 	for _, i := range order {
 		close(release[i])
 		select {
@@ -113,14 +143,34 @@ func startedThenSerial(stage events.EventType, wait time.Duration, start []int, 
 	return res
 }
 
+// startedThenTogether: n calls started one after the other (each when the one before is parked), then released at the same
+// moment: whatever the earlier calls left behind before the parking point is there for the later ones, and all of them run
+// the code after it concurrently.
+func startedThenTogether(after events.EventType, wait time.Duration, n int, call func(w int, ch *chan events.Event) (string, error)) []string {
+	return startedThenStaggered(after, wait, n, 0, call)
+}
+
+// startedThenStaggered: as startedThenTogether, the releases `gap` apart (the calls run the code after the parking point
+// concurrently but out of step).
+func startedThenStaggered(after events.EventType, wait time.Duration, n int, gap time.Duration, call func(w int, ch *chan events.Event) (string, error)) []string {
+	start := make([]int, n)
+	calls := make([]func(ch *chan events.Event) (string, error), n)
+	for i := 0; i < n; i++ {
+		i := i
+		start[i] = i
+		calls[i] = func(ch *chan events.Event) (string, error) { return call(i, ch) }
+	}
+	return startedThenReleased(after, wait, start, nil, gap, calls)
+}
+
 var stageStarts = []events.EventType{events.ProfileParsingStart, events.InputDataParsingStart, events.InputDataNormalizationStart,
 	events.RegoGenerationStart, events.RegoCompilationStart, events.OpaValidationStart, events.BuildReportStart}
 var stageDones = []events.EventType{events.ProfileParsingDone, events.InputDataParsingDone, events.InputDataNormalizationDone,
 	events.RegoGenerationDone, events.RegoCompilationDone, events.OpaValidationDone, events.BuildReportDone}
 
-// alignedCalls: n calls at once; the listener of every call holds the call's first event of type `stage` until all n calls
-// have reached it (or 10 s), then all go on together - the calls enter the code after `stage` at the same moment.
-func alignedCalls(stage events.EventType, n int, call func(w int, ch *chan events.Event) (string, error)) []string {
+// alignedCalls: n calls at once; the listener of every call stops receiving after the event `after` (see above) until all n
+// calls have got there (or 10 s), then all go on together - the calls enter the code behind their next event at the same moment.
+func alignedCalls(after events.EventType, n int, call func(w int, ch *chan events.Event) (string, error)) []string {
 	outs := make([]string, n)
 	bar := make(chan struct{})
 	var arrived int32
@@ -134,8 +184,8 @@ func alignedCalls(stage events.EventType, n int, call func(w int, ch *chan event
 			go func() {
 				defer close(fin)
 				held := false
-				for ev := range ch {
-					if ev.EventType == stage && !held {
+				hold := func() {
+					if !held {
 						held = true
 						if atomic.AddInt32(&arrived, 1) == int32(n) {
 							close(bar)
@@ -144,6 +194,14 @@ func alignedCalls(stage events.EventType, n int, call func(w int, ch *chan event
 						case <-bar:
 						case <-time.After(10 * time.Second):
 						}
+					}
+				}
+				if after == beforeFirst {
+					hold()
+				}
+				for ev := range ch {
+					if ev.EventType == after {
+						hold()
 					}
 				}
 			}()
